@@ -15,9 +15,12 @@ import time
 pid = sys.argv[1]
 rest = [a for a in sys.argv[2:] if not a.startswith("--")]
 also = []
+vmap = {}
 for a in sys.argv[2:]:
     if a.startswith("--also"):
         also = a.split("=", 1)[1].split(",")
+    if a.startswith("--map"):  # second campaign: --map=A:C,B:D files seedA/seedB of the worktree as <ID>_C / <ID>_D
+        vmap = dict(kv.split(":") for kv in a.split("=", 1)[1].split(","))
 xs = rest or ["A", "B"]
 wt = f"/tmp/seed/wt_{pid}"
 for x in xs:
@@ -30,13 +33,13 @@ for x in xs:
     ok = v.returncode == 0
     res_line = [l for l in v.stdout.splitlines() if l.startswith("RESULT")]
     print(f"{pid}_{x}: verify {'OK' if ok else 'FAILED'} {res_line}")
-    sd = f"/verif/seeded/{pid}_{x}"
+    sd = f"/verif/seeded/{pid}_{vmap.get(x, x)}"
     os.makedirs(sd, exist_ok=True)
     shutil.copy(diff, f"{sd}/patch.diff")
     shutil.copy(demo, f"{sd}/demo.py")
     if os.path.exists(f"{wt}/SEED_NOTES.md"):
         shutil.copy(f"{wt}/SEED_NOTES.md", f"{sd}/SEED_NOTES.md")
-    meta = {"property": pid, "variant": x, "confirmed_in_scratch_worktree": ok, "verify_output": v.stdout[-1500:],
+    meta = {"property": pid, "variant": vmap.get(x, x), "notes_section": x, "campaign": 2 if vmap else 1, "confirmed_in_scratch_worktree": ok, "verify_output": v.stdout[-1500:],
             "verify_cmd": f"tools/verify_seed.sh {wt} seed{x}.diff demo{x}.py (clean: demo exit 0; seeded: 45 tests pass, demo exit 1)"}
     if not ok:
         json.dump(meta, open(f"{sd}/meta.json", "w"), indent=1)
@@ -52,7 +55,7 @@ for x in xs:
                  "detected": any(e == 1 for e in det.values()), "files_touched": sorted(set(re.findall(r"^\+\+\+ b/(.*)$", open(diff).read(), re.M))),
                  "secs": round(time.time() - t0)})
     json.dump(meta, open(f"{sd}/meta.json", "w"), indent=1)
-    print(f"{pid}_{x}: exit codes {det} detected={meta['detected']} ({meta['secs']} s)")
+    print(f"{pid}_{vmap.get(x, x)}: exit codes {det} detected={meta['detected']} ({meta['secs']} s)")
     for l in txt.splitlines():
         if l.startswith("VIOLATION") or l.startswith("  what") or l.startswith("HARNESS") or l.startswith("["):
             print("    " + l[:260])
